@@ -318,6 +318,7 @@ theorem tstep_apply (g : G) (a : Action) : TStep g.core (g.apply a).1.core := by
     · split
       · exact TStep.refl _
       · rw [core_wake]; exact TStep.refl _
+  | cancelRem p => exact tstep_deliverCancels g _
 
 theorem tstep_react (g : G) (a : Action) (hfix : g.fixed = true) :
     TStep g.core (react g a).1.core := by
